@@ -19,7 +19,7 @@ import (
 // must go on after an entry the peer does not recognise, and (5) what we accepted must be announced onwards. Each is a
 // necessary condition: with any of them broken there is a two- or three-node topology that never converges.
 func init() {
-	Explanations["C12"] = "Decides five structural necessary conditions of 'honest connected nodes converge to the same heaviest chain' in package syncer; convergence itself (a liveness property over network schedules, topologies and fork shapes) is NOT decided. The sync loop asks exactly the peers whose synced mark is off, so: (R1) in the header and outline relay handlers every path that starts on the 'parent unknown' side of the state lookup or on the 'does not attach to our tip' side of the attach test reaches the handler's end only through a step that switches the announcing peer's synced mark off (a call of a function that does so on each of its paths, the setter with false, or a test of the mark whose set side does) — otherwise a node on a lighter fork is told about the heavier one and never fetches it; (R2) the mark is switched on only where the peer returned an empty header list, or where the block fetch returned without error and the peer's remaining count was tested to be zero — otherwise a node stops short of the peer's tip and nothing asks again; (R3) in the sync loop's pass over the peer table the only ways past a peer without asking it are the two sides 'peer has failed' and 'mark is on' — a further filter (direction, address, count) leaves a topology in which the only link to the heavier chain is never used; (R4) in the walk over the history sample a failed header request for one entry can be followed by the request for the next entry (a path from the failure side back to the loop), otherwise forks deeper than the first entry never find the common ancestor; (R5) a header that passed the work and attach tests, an outline whose block was added, and the last header of a completed sync are relayed onwards on every path — a node in the middle of a line topology is the only one that can tell its other neighbour. (R6) in the two relay handlers every path from the passing side of the work test to the handler's end goes through one of: the block was added to the chain (success side of AddBlocks) or the header relayed, the announcing peer was switched to unsynced, or the peer was banned — a handler that gives up on a new block in any other way (a failed follow-up request answered with a plain error) leaves the node behind a peer it believes to be in sync. NOT decided: that the loops terminate, timing, the choice of fork by weight (C01), validity of what is fetched (C11), and whether the history sample always contains a common ancestor."
+	Explanations["C12"] = "Decides ten structural necessary conditions of 'honest connected nodes converge to the same heaviest chain' (R1–R6 below in package syncer, R7–R10 appended further down); convergence itself (a liveness property over network schedules, topologies and fork shapes) is NOT decided. The sync loop asks exactly the peers whose synced mark is off, so: (R1) in the header and outline relay handlers every path that starts on the 'parent unknown' side of the state lookup or on the 'does not attach to our tip' side of the attach test reaches the handler's end only through a step that switches the announcing peer's synced mark off (a call of a function that does so on each of its paths, the setter with false, or a test of the mark whose set side does) — otherwise a node on a lighter fork is told about the heavier one and never fetches it; (R2) the mark is switched on only where the peer returned an empty header list, or where the block fetch returned without error and the peer's remaining count was tested to be zero — otherwise a node stops short of the peer's tip and nothing asks again; (R3) in the sync loop's pass over the peer table the only ways past a peer without asking it are the two sides 'peer has failed' and 'mark is on' — a further filter (direction, address, count) leaves a topology in which the only link to the heavier chain is never used; (R4) in the walk over the history sample a failed header request for one entry can be followed by the request for the next entry (a path from the failure side back to the loop), otherwise forks deeper than the first entry never find the common ancestor; (R5) a header that passed the work and attach tests, an outline whose block was added, and the last header of a completed sync are relayed onwards on every path — a node in the middle of a line topology is the only one that can tell its other neighbour. (R6) in the two relay handlers every path from the passing side of the work test to the handler's end goes through one of: the block was added to the chain (success side of AddBlocks) or the header relayed, the announcing peer was switched to unsynced, or the peer was banned — a handler that gives up on a new block in any other way (a failed follow-up request answered with a plain error) leaves the node behind a peer it believes to be in sync. NOT decided: that the loops terminate, timing, the choice of fork by weight (C01), validity of what is fetched (C11), and whether the history sample always contains a common ancestor."
 
 	register(&Rule{ID: "C12.R1", Prop: "C12", Floor: 4, Doc: "a relayed header/outline with unknown parent or not attaching to our tip switches the announcing peer back to unsynced on every path", Run: c12r1})
 	register(&Rule{ID: "C12.R2", Prop: "C12", Floor: 2, Doc: "a peer is marked synced only after an empty header reply, or after a successful fetch with nothing remaining", Run: c12r2})
